@@ -230,6 +230,29 @@ pub fn moved(m: &Mol, r: &[[f64; 3]; 3], t: [f64; 3]) -> Mol {
     for p in o.xs.iter_mut() { *p = apply(r, t, *p); }
     o
 }
+/// The molecule as a z-matrix or a builder's "standard orientation" puts it: the first atom at the origin, the second exactly on the
+/// x axis, the third exactly in the xy plane (so three atoms share z = 0 exactly, two share y = 0), the rest wherever that leaves them
+pub fn standard_orientation(m: &Mol) -> Mol {
+    if m.n() < 3 { return m.clone(); }
+    let sub = |a: [f64; 3], b: [f64; 3]| [a[0] - b[0], a[1] - b[1], a[2] - b[2]];
+    let dot = |a: [f64; 3], b: [f64; 3]| a[0] * b[0] + a[1] * b[1] + a[2] * b[2];
+    let cross = |a: [f64; 3], b: [f64; 3]| [a[1] * b[2] - a[2] * b[1], a[2] * b[0] - a[0] * b[2], a[0] * b[1] - a[1] * b[0]];
+    let o = m.xs[0];
+    let v1 = sub(m.xs[1], o); let r1 = dot(v1, v1).sqrt();
+    if r1 < 1e-6 { return m.clone(); }
+    let ex = [v1[0] / r1, v1[1] / r1, v1[2] / r1];
+    let v2 = sub(m.xs[2], o);
+    let a2 = dot(v2, ex);
+    let p2 = [v2[0] - a2 * ex[0], v2[1] - a2 * ex[1], v2[2] - a2 * ex[2]];
+    let b2 = dot(p2, p2).sqrt();
+    if b2 < 1e-6 { return m.clone(); }
+    let ey = [p2[0] / b2, p2[1] / b2, p2[2] / b2];
+    let ez = cross(ex, ey);
+    let mut xs: Vec<[f64; 3]> = m.xs.iter().map(|p| { let v = sub(*p, o); [dot(v, ex), dot(v, ey), dot(v, ez)] }).collect();
+    xs[0] = [0.0, 0.0, 0.0]; xs[1] = [r1, 0.0, 0.0]; xs[2] = [a2, b2, 0.0];
+    Mol { name: format!("{}-std", m.name), zs: m.zs.clone(), xs }
+}
+
 pub fn union(a: &Mol, b: &Mol) -> Mol {
     let mut m = a.clone();
     m.zs.extend(b.zs.iter());
